@@ -478,8 +478,11 @@ class Builder:
         from .graph import def_bytes
         variants = self.spec.get('variants')
         if not log_creation:
-            sd = SynthDef(self.spec['name'], self.make_func(),
-                          variants=variants)
+            # one function object (and one variants dict) per Builder: a
+            # Builder built again is the same graph function built again
+            if getattr(self, '_fn', None) is None:
+                self._fn = self.make_func()
+            sd = SynthDef(self.spec['name'], self._fn, variants=variants)
             self.synthdef = sd
             return def_bytes(sd)
         # creation log: wrap the two methods through which units enter and
